@@ -56,7 +56,7 @@ impl Out {
         *c += 1;
         self.n_fail += 1;
         if *c <= 5 {
-            println!("{{\"fail\":true,\"property\":\"{}\",\"check\":\"{}\",\"case\":{},\"detail\":\"{}\"}}", prop, check, case.json(), detail.replace('\\', "/").replace('"', "'"));
+            println!("{{\"fail\":true,\"property\":\"{}\",\"check\":\"{}\",\"case\":{},\"detail\":\"{}\"}}", prop, check, case.json(), detail.replace('\\', "/").replace('"', "'").chars().map(|ch| if ch.is_control() { ' ' } else { ch }).collect::<String>());
         }
     }
 }
